@@ -1,3 +1,155 @@
-/- C03: property theorems (none yet). -/
+/-
+C03 — Compilation is total and sound on arbitrary input bytes: property theorems.
+
+Part 1 (this section): the LEB128 decoders and encoders of `internal/leb128` (model `Wz.Model.Leb128`,
+tied to the code by the differential run of hc03).
+-/
+import Wz.Proofs.C03_Leb
 namespace Wz.C03
+open Wz.Model.Leb128 Wz.C03.Leb
+
+deriving instance DecidableEq for Except
+
+/-! ## LEB128 -/
+
+/-- Every decoder returns an error or `(v, n)` with `1 ≤ n ≤ 5` (resp. 10), `n ≤ length` (it never
+reads past the input — also on unbounded runs of continuation bytes, which the signed decoders walk to
+the end) and `v` inside the range of the Go result type. -/
+theorem leb_total_bounded (bs : List Byte) :
+    (∀ v n, decodeUint32 bs = .ok (v, n) → 1 ≤ n ∧ n ≤ 5 ∧ n ≤ bs.length ∧ v < 2 ^ 32) ∧
+    (∀ v n, loadUint64 bs = .ok (v, n) → 1 ≤ n ∧ n ≤ 10 ∧ n ≤ bs.length ∧ v < 2 ^ 64) ∧
+    (∀ v n, decodeInt32 bs = .ok (v, n) → 1 ≤ n ∧ n ≤ 5 ∧ n ≤ bs.length ∧ -(2 ^ 31 : Int) ≤ v ∧ v < 2 ^ 31) ∧
+    (∀ v n, decodeInt64 bs = .ok (v, n) → 1 ≤ n ∧ n ≤ 10 ∧ n ≤ bs.length ∧ -(2 ^ 63 : Int) ≤ v ∧ v < 2 ^ 63) ∧
+    (∀ v n, decodeInt33 bs = .ok (v, n) → 1 ≤ n ∧ n ≤ 5 ∧ n ≤ bs.length ∧ -(2 ^ 32 : Int) ≤ v ∧ v < 2 ^ 32) := by
+  refine ⟨?_, ?_, ?_, ?_, ?_⟩
+  · intro v n h; have := u32Loop_bounds 5 0 0 bs v n h; omega
+  · intro v n h; have := u64Loop_bounds 10 0 0 bs v n h; omega
+  · intro v n h; have := i32Loop_bounds bs 0 0 v n h; omega
+  · intro v n h; have := i64Loop_bounds bs 0 0 v n h; omega
+  · intro v n h
+    rw [decodeInt33_eq] at h
+    unfold i33Post at h
+    split at h
+    · simp at h
+    · rename_i acc m b heq
+      have hb := i33Loop_bounds 5 0 0 0#8 bs acc m b heq
+      obtain ⟨hv, hm, _⟩ := i33Final_ok h
+      have hr := i33Ret_range (7 * m) acc b
+      subst hv; subst hm
+      omega
+
+/-- A successful decode depends only on the `n` bytes it consumed: replacing everything after them
+changes nothing (so the decoders cannot be influenced by, or read, later bytes). -/
+theorem leb_reads_only_consumed (bs sfx : List Byte) :
+    (∀ v n, decodeUint32 bs = .ok (v, n) → decodeUint32 (bs.take n ++ sfx) = .ok (v, n)) ∧
+    (∀ v n, loadUint64 bs = .ok (v, n) → loadUint64 (bs.take n ++ sfx) = .ok (v, n)) ∧
+    (∀ v n, decodeInt32 bs = .ok (v, n) → decodeInt32 (bs.take n ++ sfx) = .ok (v, n)) ∧
+    (∀ v n, decodeInt64 bs = .ok (v, n) → decodeInt64 (bs.take n ++ sfx) = .ok (v, n)) ∧
+    (∀ v n, decodeInt33 bs = .ok (v, n) → decodeInt33 (bs.take n ++ sfx) = .ok (v, n)) := by
+  refine ⟨?_, ?_, ?_, ?_, ?_⟩
+  · intro v n h; simpa [decodeUint32] using u32Loop_prefix 5 0 0 bs v n sfx h
+  · intro v n h; simpa [loadUint64] using u64Loop_prefix 10 0 0 bs v n sfx h
+  · intro v n h; simpa [decodeInt32] using i32Loop_prefix bs 0 0 v n sfx h
+  · intro v n h; simpa [decodeInt64] using i64Loop_prefix bs 0 0 v n sfx h
+  · intro v n h
+    rw [decodeInt33_eq] at h ⊢
+    unfold i33Post at h
+    split at h
+    · simp at h
+    · rename_i acc m b heq
+      obtain ⟨_, hm, _⟩ := i33Final_ok h
+      subst hm
+      have := i33Loop_prefix 5 0 0 0#8 bs acc n b sfx heq
+      simp only [Nat.sub_zero] at this
+      rw [this]
+      exact h
+
+/-- Round trip for ALL values of each type and all suffixes: decoding an encoding gives the value back
+and consumes exactly the encoding (`EncodeUint32/64` = `encU`, `EncodeInt32/64` = `encS`; the 33-bit
+block-type decoder reads what `EncodeInt64` writes for any 33-bit value). -/
+theorem leb_roundtrip (sfx : List Byte) :
+    (∀ v : Nat, v < 2 ^ 32 → decodeUint32 (encU v ++ sfx) = .ok (v, (encU v).length)) ∧
+    (∀ v : Nat, v < 2 ^ 64 → loadUint64 (encU v ++ sfx) = .ok (v, (encU v).length)) ∧
+    (∀ v : Int, -(2 ^ 31 : Int) ≤ v → v < 2 ^ 31 → decodeInt32 (encS v ++ sfx) = .ok (v, (encS v).length)) ∧
+    (∀ v : Int, -(2 ^ 63 : Int) ≤ v → v < 2 ^ 63 → decodeInt64 (encS v ++ sfx) = .ok (v, (encS v).length)) ∧
+    (∀ v : Int, -(2 ^ 32 : Int) ≤ v → v < 2 ^ 32 → decodeInt33 (encS v ++ sfx) = .ok (v, (encS v).length)) :=
+  ⟨fun v h => u32_roundtrip v h sfx, fun v h => u64_roundtrip v h sfx, fun v h1 h2 => i32_roundtrip v h1 h2 sfx,
+   fun v h1 h2 => i64_roundtrip v h1 h2 sfx, fun v h1 h2 => i33_roundtrip v h1 h2 sfx⟩
+
+/-- Encodings are short: at most 5 bytes for 32-bit and 10 bytes for 64-bit values. -/
+theorem leb_encode_length (v : Nat) (w : Int) :
+    (v < 2 ^ 32 → (encU v).length ≤ 5) ∧ (v < 2 ^ 64 → (encU v).length ≤ 10) ∧
+    (-(2 ^ 31 : Int) ≤ w → w < 2 ^ 31 → (encS w).length ≤ 5) ∧ (-(2 ^ 63 : Int) ≤ w → w < 2 ^ 63 → (encS w).length ≤ 10) := by
+  refine ⟨?_, ?_, ?_, ?_⟩
+  · intro h
+    have r := u32_roundtrip v h []
+    have := u32Loop_bounds 5 0 0 _ _ _ r
+    omega
+  · intro h
+    have r := u64_roundtrip v h []
+    have := u64Loop_bounds 10 0 0 _ _ _ r
+    omega
+  · intro h1 h2
+    have r := i32_roundtrip w h1 h2 []
+    have := i32Loop_bounds _ 0 0 _ _ r
+    omega
+  · intro h1 h2
+    have r := i64_roundtrip w h1 h2 []
+    have := i64Loop_bounds _ 0 0 _ _ r
+    omega
+
+/-- The 5th byte of an unsigned 32-bit value may only carry 4 bits: with four continuation bytes in
+front, a terminating 5th byte is accepted iff it is < 16 (and then all 32 bits are significant). -/
+theorem leb_u32_canonical_range (b0 b1 b2 b3 b4 : Byte) (rest : List Byte)
+    (h0 : 0x80 ≤ b0.toNat) (h1 : 0x80 ≤ b1.toNat) (h2 : 0x80 ≤ b2.toNat) (h3 : 0x80 ≤ b3.toNat) (h4 : b4.toNat < 0x80) :
+    decodeUint32 (b0 :: b1 :: b2 :: b3 :: b4 :: rest) =
+      if b4.toNat < 16 then
+        .ok (b0.toNat % 128 + b1.toNat % 128 * 2 ^ 7 + b2.toNat % 128 * 2 ^ 14 + b3.toNat % 128 * 2 ^ 21 + b4.toNat * 2 ^ 28, 5)
+      else .error .overflow := by
+  have n0 : ¬ b0.toNat < 128 := by omega
+  have n1 : ¬ b1.toNat < 128 := by omega
+  have n2 : ¬ b2.toNat < 128 := by omega
+  have n3 : ¬ b3.toNat < 128 := by omega
+  have hb4 : b4.toNat < 256 := by omega
+  simp only [decodeUint32, u32Loop, n0, n1, n2, n3, h4, if_true, if_false, mask7f, true_and]
+  by_cases hc : b4.toNat < 16
+  · have : b4 &&& 0xf0#8 = 0#8 := (maskf0 b4).mpr (by omega)
+    simp [this, hc]
+    omega
+  · have : ¬ (b4 &&& 0xf0#8 = 0#8) := fun h => by have := (maskf0 b4).mp h; omega
+    simp [this, hc]
+
+/-- … and a 5-byte run of continuation bytes is rejected whatever follows (bounded loop). -/
+theorem leb_u32_five_continuations_rejected (b0 b1 b2 b3 b4 : Byte) (rest : List Byte)
+    (h0 : 0x80 ≤ b0.toNat) (h1 : 0x80 ≤ b1.toNat) (h2 : 0x80 ≤ b2.toNat) (h3 : 0x80 ≤ b3.toNat) (h4 : 0x80 ≤ b4.toNat) :
+    decodeUint32 (b0 :: b1 :: b2 :: b3 :: b4 :: rest) = .error .overflow := by
+  have n0 : ¬ b0.toNat < 128 := by omega
+  have n1 : ¬ b1.toNat < 128 := by omega
+  have n2 : ¬ b2.toNat < 128 := by omega
+  have n3 : ¬ b3.toNat < 128 := by omega
+  have n4 : ¬ b4.toNat < 128 := by omega
+  simp [decodeUint32, u32Loop, n0, n1, n2, n3, n4]
+
+/-- non-vacuity of the hypotheses above, and concrete values (tests by evaluation) -/
+example : decodeUint32 [0xff#8, 0xff#8, 0xff#8, 0xff#8, 0x0f#8, 0x00#8] = .ok (4294967295, 5) := by decide
+example : decodeUint32 [0xff#8, 0xff#8, 0xff#8, 0xff#8, 0x1f#8] = .error .overflow := by decide
+example : decodeUint32 [0x80#8, 0x80#8, 0x80#8, 0x80#8, 0x01#8] = .ok (2 ^ 28, 5) := by decide
+example : decodeInt32 [0x7f#8] = .ok (-1, 1) := by decide
+example : decodeInt33 [0x40#8] = .ok (-64, 1) := by decide
+
+set_option maxRecDepth 100000 in
+/-- Observation (leniency, not a violation of C03): the signed decoders check only SOME of the unused
+bits of the last byte — bit 6 is never looked at.  `80 80 80 80 3f` is accepted as an int32 (the
+specification requires bits 4–6 of the 5th byte to equal the sign bit, i.e. `7f`), `80 80 80 80 47` as
++1879048192 (bit 6 set on a non-negative value). -/
+theorem leb_i32_unused_bit6_unchecked_witness :
+    decodeInt32 [0x80#8, 0x80#8, 0x80#8, 0x80#8, 0x3f#8] = .ok (-268435456, 5) ∧
+    decodeInt32 [0x80#8, 0x80#8, 0x80#8, 0x80#8, 0x47#8] = .ok (1879048192, 5) := by decide +kernel
+
+set_option maxRecDepth 100000 in
+/-- Observation: `DecodeInt33AsInt64` stops after five bytes even when the fifth byte still has its
+continuation bit set, and accepts it (`ff ff ff ff ff` decodes to -1 with 5 bytes consumed). -/
+theorem leb_i33_fifth_continuation_accepted_witness :
+    decodeInt33 [0xff#8, 0xff#8, 0xff#8, 0xff#8, 0xff#8] = .ok (-1, 5) := by decide +kernel
+
 end Wz.C03
